@@ -13,6 +13,16 @@ import vlib
 
 LEVEL = "model_checking"
 
+REGISTRY = dict(
+        level="model_checking",
+        text="TLC explores the implementation-shaped model of Feed/BuildResponse exhaustively within bounds, proves "
+             "it refines the abstract output-assembly spec, and every history it reaches is replayed into the real "
+             "FileManager; the recorded traces are validated by TLC against the abstract spec (fresh names inferred).",
+        design_ref="DESIGN.md 6 C12",
+        note="Trusted: TLC, the harness' rendering of segments to marker strings. Bounded alphabets (names a, b, a_1, "
+             "a_2, a_1_1; 4 contents; 3 points; 2 texts; <= 6 items in <= 3 Feed calls).",
+        technique="TLA+ refinement (Impl => Spec) + TLC-generated histories replayed + TLC trace validation")
+
 TIERS = {
     # cfg constants: (Names, contents operator, Points, Texts, MaxItems, MaxFeeds)
     "quick": [dict(names='{"a", "a_1"}', contents="cContents", points='{"p", "zz"}',
